@@ -19,7 +19,8 @@ class MObj(VObj):
         seen = set()
         for st in (old, committed, new):
             for r in st.get('refs', ()):
-                key = getattr(r, 'oid', None)
+                key = (getattr(r, 'oid', None), getattr(r, 'weak', None), getattr(r, 'database_name', None),
+                       type(getattr(r, 'data', None)).__name__)
                 if key not in seen:
                     seen.add(key)
                     refs.append(r)
